@@ -2,6 +2,7 @@ package main
 
 import (
 	"fmt"
+	"os"
 	"strings"
 
 	go9p "github.com/rminnich/go9p"
@@ -230,4 +231,126 @@ func c08FsrvScenarios(P int) []Scenario {
 		}
 	}
 	return out
+}
+
+// c08UfsSlowHost: the Unix file server blocked in the host - the open of one file does
+// not return (a FIFO nobody writes to, a slow network file system; the seam is
+// vs.OpenFile). Requests with other tags go on being answered meanwhile: on the fid
+// being opened, on other fids of the connection, and on another connection.
+func c08UfsSlowHost(held string, dotu bool, maxpend, P int) Scenario {
+	var base, root string
+	var c0, c1 *Cli
+	var setup0 int
+	var victims []uint16
+	name := fmt.Sprintf("ufs host blocks in open of %s maxpend=%d dotu=%v", held, maxpend, dotu)
+	body := func() {
+		victims = nil
+		os.RemoveAll(root)
+		makeStdTree(root)
+		gate := vs.NewSem(0)
+		first := true
+		vs.OpenFileHook = func(path string, flag int) {
+			if first && strings.HasSuffix(path, "/"+held) {
+				first = false
+				gate.Acquire()
+			}
+		}
+		h := newUfsH(root, 8216, dotu)
+		h.Srv.Maxpend = maxpend
+		c0, c1 = h.Connect(), h.Connect()
+		ver := "9P2000"
+		if dotu {
+			ver = "9P2000.u"
+		}
+		c0.Version(8216, ver)
+		c1.Version(8216, ver)
+		un := ""
+		if !dotu {
+			un = go9p.OsUsers.Uid2User(os.Geteuid()).Name()
+		}
+		c0.Rpc(tattach(1, 0, wire.NOFID, un, uint32(os.Geteuid()), dotu))
+		c0.Rpc(twalk(2, 0, 1, held))
+		c0.Rpc(twalk(3, 0, 3, "d"))
+		setup0 = len(c0.Collect())
+		c1.Collect()
+		c0.Send(dotu, &wire.Msg{Type: wire.Topen, Tag: 100, Fid: 1, Mode: 0})
+		vs.Idle()
+		vs.Window(P > 0)
+		tag := uint16(200)
+		send := func(c *Cli, m *wire.Msg) {
+			tag++
+			m.Tag = tag
+			if c == c0 {
+				victims = append(victims, tag)
+			}
+			c.Send(dotu, m)
+		}
+		send(c0, &wire.Msg{Type: wire.Tstat, Fid: 1}) // the fid being opened
+		send(c0, twalk(0, 0, 5, "g"))
+		if P == 0 {
+			vs.Idle()
+			send(c0, &wire.Msg{Type: wire.Topen, Fid: 5, Mode: 0})
+			vs.Idle()
+			send(c0, &wire.Msg{Type: wire.Tread, Fid: 5, Count: 16})
+			send(c0, twalk(0, 1, 6)) // a clone of the fid being opened
+			send(c0, &wire.Msg{Type: wire.Tstat, Fid: 3})
+		}
+		vs.Idle()
+		vs.Window(false)
+		send(c1, tattach(0, 0, wire.NOFID, un, uint32(os.Geteuid()), dotu))
+		vs.Idle()
+		send(c1, twalk(0, 0, 5, held))
+		vs.Idle()
+		c0.Collect()
+		c1.Collect()
+		gate.Release()
+		vs.Idle()
+		c0.Collect()
+	}
+	check := stdCheck("C08", func(x *vs.Exec) *Viol {
+		frames := c0.Frames[setup0:]
+		detail := map[string]any{"wire": strings.Split(framesString(frames), "\n"), "parked": x.Parked}
+		answered := map[uint16]bool{}
+		heldAt := -1
+		for i, f := range frames {
+			if f.Msg == nil {
+				return &Viol{Sig: "C08/malformed-frame", Msg: f.Err, Detail: detail}
+			}
+			if f.Msg.Tag == 100 {
+				heldAt = i
+				continue
+			}
+			if heldAt < 0 {
+				answered[f.Msg.Tag] = true
+			}
+		}
+		if heldAt < 0 {
+			return &Viol{Sig: "C08/held-never-answered/ufs-slow-host", Msg: fmt.Sprintf("the Topen of %s was never answered after the host let it go\n%s", held, framesString(frames)), Detail: detail}
+		}
+		var missing []string
+		for _, t := range victims {
+			if !answered[t] {
+				missing = append(missing, fmt.Sprint(t))
+			}
+		}
+		if len(missing) > 0 {
+			return &Viol{Sig: "C08/blocked-by-parked/ufs-slow-host", Msg: fmt.Sprintf("with a Topen of %s blocked in the host, the requests with tags [%s] were not answered until it returned\n%s\nparked: %+v", held, strings.Join(missing, " "), framesString(frames), x.Parked), Detail: detail}
+		}
+		n1 := 0
+		for _, f := range c1.Frames {
+			if f.Msg != nil && f.Msg.Tag > 200 && f.Msg.Tag != 0xFFFF {
+				n1++
+			}
+		}
+		if n1 != 2 {
+			return &Viol{Sig: "C08/blocked-by-parked/ufs-slow-host-other-connection", Msg: fmt.Sprintf("with a Topen of %s blocked in the host, a second connection got %d of 2 replies (attach, walk)\nparked: %+v", held, n1, x.Parked), Detail: detail}
+		}
+		return nil
+	}, nil)
+	return Scenario{Name: name, Run: func(rc *RunCtx) *Result {
+		base, root = scratchDir("c08")
+		defer os.RemoveAll(base)
+		defer func() { vs.OpenFileHook = nil }()
+		return runVs(rc, &VsSpec{Name: name, Body: body, Check: check, P: P})
+	}}
 }
